@@ -28,6 +28,9 @@ def load_contract(pid: str) -> tuple[Any, list[Any]]:
     path = os.path.join(VERIF, "contracts", f"{pid}.py")
     if not os.path.exists(path):
         raise SystemExit(f"no contract file for {pid}")
+    cdir = os.path.join(VERIF, "contracts")
+    if cdir not in sys.path:
+        sys.path.insert(0, cdir)
     reg = api.begin_registry()
     try:
         spec = importlib.util.spec_from_file_location(f"contracts_{pid}", path)
